@@ -1,7 +1,8 @@
 (* Compare.v — C18: utils::isequal / utils::isclose.
    MODEL: faithful image of include/nmtools/utility/isequal.hpp (as of the fix
    "isequal returns false for operands of different length, dimension or shape")
-   and include/nmtools/utility/isclose.hpp (unchanged: shape check by assert only).
+   and include/nmtools/utility/isclose.hpp (as of the fixes: run-time shape test, eps forwarded by the
+   one-sided either arms, scalar difference taken in the common type).
    SPEC: structural equality / closeness, total.
 
    The C++ dispatches on static types; the model dispatches on the value's
@@ -111,14 +112,15 @@ Definition isequal_arr (nd : bool) (s d s' d' : list Z) : out :=
 
 Definition close (eps a b : Z) : bool := Z.abs (a - b) <? eps.
 
+(* after the fix "isclose returns false for ndarrays of different dimension or shape": the shape test is a
+   run-time comparison through detail::isequal (index-array branch), no assert is left; [nd] is kept so that
+   both builds are still quantified over (they now behave alike) *)
 Definition isclose_arr (nd : bool) (eps : Z) (s d s' d' : list Z) : out :=
-  let loop := arr_loop (close eps) s d s' d' 0 (Z.to_nat (product s)) true in
-  if nd then loop
-  else match isequal_idx KVec s KVec s' with                             (* nmtools_cassert(isequal(t_shape,u_shape)) *)
-       | Ret true => loop
-       | Ret false => Abort
-       | o => o
-       end.
+  match isequal_idx KVec s KVec s' with                                  (* if (!detail::isequal(t_shape,u_shape)) return false; *)
+  | Ret true => arr_loop (close eps) s d s' d' 0 (Z.to_nat (product s)) true
+  | Ret false => Ret false
+  | o => o
+  end.
 
 Definition as_arr (v : val) : option (list Z * list Z) :=
   match v with
@@ -219,16 +221,13 @@ Section Generic.
     end.
 End Generic.
 
-(* isclose's one-sided either arms call isclose( * ptr, u ) WITHOUT eps (isclose.hpp:215-257): the default
-   1e-6 applies.  Values are integers (scaled), so any eps in (0,1] means equality: default_eps = 1. *)
-Definition default_eps : Z := 1.
-
 Definition isequal_d (nd : bool) (x y : val) : out := cmp_d (leaf_eq nd) (fun e => e) x y 0.
 Definition isequal (nd : bool) (x y : val) : out :=
   cmp_t (leaf_eq nd) (fun e => e) (fun _ a b => a =? b) true x y 0.
-Definition isclose_d (nd : bool) (eps : Z) (x y : val) : out := cmp_d (leaf_cl nd) (fun _ => default_eps) x y eps.
+(* the one-sided either arms forward eps (after the fix "isclose(either, plain, eps) honours eps") *)
+Definition isclose_d (nd : bool) (eps : Z) (x y : val) : out := cmp_d (leaf_cl nd) (fun e => e) x y eps.
 Definition isclose (nd : bool) (eps : Z) (x y : val) : out :=
-  cmp_t (leaf_cl nd) (fun _ => default_eps) close false x y eps.
+  cmp_t (leaf_cl nd) (fun e => e) close false x y eps.
 
 (* =====================  SPEC  ===================== *)
 
@@ -320,6 +319,8 @@ Fixpoint notup (v : val) : bool :=
 (* pairs covered by the theorems: no either at all, or no tuple-of-integers at all *)
 Definition pair_dom (x y : val) : bool := (noeither x && noeither y) || (notup x && notup y).
 
-(* isclose on two INTEGER scalars subtracts in the operands' common type before taking fabs
-   (isclose.hpp:267): when one of them is unsigned (size_t) the difference wraps modulo 2^w. *)
+(* BEFORE the fix "isclose on integer scalars subtracts in the common type": two INTEGER scalars were
+   subtracted in their own arithmetic type before fabs (isclose.hpp:267), so with an unsigned operand
+   (size_t) the difference wrapped modulo 2^w.  Kept as the record of that behaviour; the model's scalar
+   arm is [close] (difference in common_t, which contains the eps type). *)
 Definition close_unsigned (w eps a b : Z) : bool := wrap w (a - b) <? eps.
